@@ -60,6 +60,11 @@ def new_helpers(js):
         ren = [s for s, v in vanished.items() if v[0] == sig[0] and v[1] == sig[1] and tuple(v[2]) == sig[2]]
         if ren:
             continue
+        # a vanished function of the same module with the same name: a method turned into a free function (or back)
+        name = f["name"]
+        mod = "::".join(_short(k).split("::")[:2])
+        if any(s.startswith(mod + "::") and s.rsplit("::", 1)[-1] == name for s in vanished):
+            continue
         out.append(k)
     return out
 
